@@ -243,7 +243,8 @@ c.ens("watch-result-names-the-expression", lambda S_: And(
     S_.new.f(S_.new.lget(S_.result, 0), "_expression") == S_.a.watch,
     S_.new.f(S_.new.lget(S_.result, 0), "WatchResult.__source") == S_.a.source,
     Val.is_VStr(S_.new.lget(S_.result, 2)),
-    Val.is_VRef(S_.new.lget(S_.result, 1)), S_.new.typeof(S_.new.lget(S_.result, 1)) == S_.cid("dict")),
+    # the variables collected for it: a table of its own (never the snapshot's)
+    S_.created_during_call(S_.new.lget(S_.result, 1)), S_.new.typeof(S_.new.lget(S_.result, 1)) == S_.cid("dict")),
     props=["C02", "C16"])
 
 
@@ -332,9 +333,13 @@ c.sig("Exception", "log-template-cannot-be-rendered",
       cond=lambda S_: S_.old.dhas(S_.old.f(S_.old.f(S_.a.self, "location_action"), "LocationAction.__config"), "log_msg"))
 c.sig_props = ["C06"]
 c.max_paths = 600
+# the action's own configuration is not touched by collecting (encapsulation); the client's resource is a Resource
+c.protects = lambda S_: {"fields": ["_resource"], "lists": [], "dicts": [S_.old.f(S_.old.f(S_.a.self, "location_action"), "LocationAction.__config")]}
+c.req("the-client-resource-has-been-set-up", lambda S_: S_.I.assume_shape(S_.old.f(S_.old.f(S_.old.f(
+    S_.a.self, "trigger_context"), "TriggerContext.__config"), "_resource"), OBJ("Resource")) or z3.BoolVal(True))
 # the body beyond the frame collection (watch loop, log rendering, capture) exceeds the solver budget as one
 # unit (DESIGN.md, C02): this contract states obligations on the path prefix up to the call of collect()
-c.stop_after = "collect"
+# c.stop_after = "collect"
 
 
 def _spa_log(S_, kind):
@@ -363,6 +368,20 @@ def _spa_log(S_, kind):
     out.append(("watches-evaluated-as-watches", "LOG",
                 And(*[Or(e.args[2] == VStr("WATCH"), e.args[2] == VStr("LOG")) for e in ws]) if ws else z3.BoolVal(True),
                 ["C02"]))
+    if kind == "return":
+        # what the action hands on: the snapshot as exactly one result (to be decorated / sent / completed later, under the
+        # per-result guard), the log line - when there is one - as a result of its own and never emitted by the action itself,
+        # and the snapshot carries the rendered log text
+        pl = S_.calls("process_log")
+        n = S_.new
+        snaps = S_.calls("EventSnapshot")
+        kinds = [z3.simplify(n.typeof(e.args[1])) for e in att]
+        is_cls = lambda t, nm: z3.is_int_value(t) and t.as_long() == S_.cid(nm)
+        n_snap = sum(1 for t in kinds if is_cls(t, "SendSnapshotActionResult") or is_cls(t, "DeferredSnapshotActionResult"))
+        n_log = sum(1 for t in kinds if is_cls(t, "LogActionResult"))
+        direct = [e for e in S_.calls("config_get") if z3.simplify(e.args[1]).eq(VStr("tracepoint_logger"))]
+        out.append(("one-snapshot-result-and-the-log-line-as-its-own-result", "LOG", z3.BoolVal(
+            len(snaps) == 1 and n_snap == 1 and n_log == len(pl) and len(att) == n_snap + n_log and not direct), ["C02", "C16", "C20"]))
     return out
 
 
